@@ -4,6 +4,9 @@ import (
 	"bytes"
 	"context"
 	"fmt"
+	"github.com/KevoDB/kevo/pkg/replication"
+	"github.com/KevoDB/kevo/zsim/simnet"
+	"net"
 	"sort"
 	"testing"
 	"time"
@@ -45,9 +48,10 @@ type SvcOp struct {
 }
 
 type SvcCase struct {
-	Sched kit.Sched `json:"sched"`
-	Knobs kit.Knobs `json:"knobs"`
-	Ops   []SvcOp   `json:"ops"`
+	Sched   kit.Sched `json:"sched"`
+	Knobs   kit.Knobs `json:"knobs"`
+	Ops     []SvcOp   `json:"ops"`
+	Primary bool      `json:"primary,omitempty"` // the node runs replication as a primary (no replica attached)
 }
 
 type collectStream[T any] struct {
@@ -118,7 +122,26 @@ func runC19(t *testing.T, c SvcCase) *kit.Result {
 			return
 		}
 		reg := transaction.NewRegistryWithTTL(5*time.Minute, 2*time.Minute, 75, 90)
-		svc := service.NewKevoServiceServer(e, reg, nil)
+		var pmgr *replication.Manager
+		if c.Primary && replication.VerifHooked {
+			// replication.Manager in primary mode, listener simulated, nobody connects
+			replication.VerifListen = func(addr string) (net.Listener, error) { return simnet.NewListener(addr), nil }
+			mc := replication.DefaultManagerConfig()
+			mc.Enabled, mc.Mode, mc.ListenAddr = true, replication.ReplicationModePrimary, "n1:50052"
+			if pmgr, err = replication.NewManager(e, mc); err == nil {
+				err = pmgr.Start()
+			}
+			if err != nil {
+				res.V = &kit.Violation{Kind: "open-error", Signature: "open-error:replication-manager", Detail: err.Error()}
+				return
+			}
+		}
+		var svc *service.KevoServiceServer
+		if pmgr != nil {
+			svc = service.NewKevoServiceServer(e, reg, pmgr)
+		} else {
+			svc = service.NewKevoServiceServer(e, reg, nil)
+		}
 		ctx := context.WithValue(context.Background(), "peer", "client-1")
 		m := kit.NewModel()
 		var handles []*svcHandle
@@ -363,10 +386,10 @@ func runC19(t *testing.T, c SvcCase) *kit.Result {
 					}
 					break
 				}
-				if !validKey(k) || (o.K != "txget" && h.ro) {
+				if !validKey(k) || (o.K != "txget" && h.ro) || (o.K == "txput" && len(val) > 10*1024*1024) {
 					rejected++
 					if err == nil {
-						fail(&kit.Violation{Kind: "limit", Signature: o.K + "-accepts-invalid-request", Detail: fmt.Sprintf("op %d: %s with a %d-byte key on a read-only=%v transaction was accepted", i, o.K, len(k), h.ro)})
+						fail(&kit.Violation{Kind: "limit", Signature: o.K + "-accepts-invalid-request", Detail: fmt.Sprintf("op %d: %s with a %d-byte key and a %d-byte value on a read-only=%v transaction was accepted", i, o.K, len(k), len(val), h.ro)})
 						break
 					}
 					unchanged(i, o, "invalid request inside a transaction")
@@ -422,7 +445,13 @@ func runC19(t *testing.T, c SvcCase) *kit.Result {
 				}
 			case "nodeinfo":
 				r, err := svc.GetNodeInfo(ctx, wire(&pb.GetNodeInfoRequest{}))
-				if err != nil || r.NodeRole != pb.GetNodeInfoResponse_STANDALONE || r.ReadOnly {
+				if pmgr != nil {
+					// the service must pass on what the replication manager says
+					role, addr, replicas, lastSeq, ro := pmgr.GetNodeInfo()
+					if err != nil || r.NodeRole != pb.GetNodeInfoResponse_PRIMARY || role != replication.ReplicationModePrimary || r.PrimaryAddress != addr || len(r.Replicas) != len(replicas) || r.LastSequence != lastSeq || r.ReadOnly != ro || ro {
+						fail(&kit.Violation{Kind: "service-mismatch", Signature: "nodeinfo-primary", Detail: fmt.Sprintf("op %d GetNodeInfo on a primary without replicas: service says %v (err %v), the replication manager says role=%s addr=%s replicas=%d last_sequence=%d read_only=%v", i, r, err, role, addr, len(replicas), lastSeq, ro)})
+					}
+				} else if err != nil || r.NodeRole != pb.GetNodeInfoResponse_STANDALONE || r.ReadOnly {
 					fail(&kit.Violation{Kind: "service-mismatch", Signature: "nodeinfo-standalone", Detail: fmt.Sprintf("op %d GetNodeInfo on a standalone node: %v %v", i, r, err)})
 				}
 			}
@@ -522,6 +551,21 @@ func genSvcCase(r *kit.Rand, tier string) SvcCase {
 	if tier == "thorough" {
 		n = r.Range(5, 120)
 	}
+	// rare value sizes: around the service's value limit (rejected or just
+	// accepted), and between the log's record size and that limit (accepted by
+	// the service, but a batch or commit containing one fails as a whole)
+	oddSize := func(o *SvcOp) {
+		if o.K != "put" && o.K != "txput" {
+			return
+		}
+		switch {
+		case r.Bool(0.003):
+			o.Len = 10*1024*1024 + r.Range(-1, 1)
+		case r.Bool(0.02):
+			o.Len = kit.PickOf(r, 32768-40+r.Intn(60), 40000, 70000)
+		}
+	}
+	c.Primary = r.Bool(0.2)
 	for len(c.Ops) < n {
 		lockFree := openRW < 0 && len(openRO) == 0
 		switch r.Pick(14, 10, 5, 4, 6, 5, 14, 6, 1, 1) {
@@ -554,6 +598,7 @@ func genSvcCase(r *kit.Rand, tier string) SvcCase {
 				tag++
 				s := SvcOp{K: kit.PickOf(r, "put", "put", "del"), Key: ks.Pick(r), Tag: tag, Len: kit.ValLen(r, false)}
 				boundaryKey(&s)
+				oddSize(&s)
 				o.Sub = append(o.Sub, s)
 			}
 			c.Ops = append(c.Ops, o)
@@ -583,6 +628,7 @@ func genSvcCase(r *kit.Rand, tier string) SvcCase {
 				scanOpts(&o)
 			} else {
 				boundaryKey(&o)
+				oddSize(&o)
 			}
 			c.Ops = append(c.Ops, o)
 		case 7:
